@@ -504,4 +504,31 @@ func TestDemoF13HandshakeIgnoresCancel(t *testing.T) {
 	}
 }
 
+// F19: after the peer closed its end (EOF), neither channel.Close nor tcpTransport.Close closes the server-side socket.
+func TestDemoF19SocketNotClosedAfterPeerEOF(t *testing.T) {
+	addr := demoAddr(55419)
+	tc := make(chan Transport, 1)
+	l := createTCPListener(t, addr, tc)
+	defer silentClose(l)
+	conn, err := net.Dial("tcp", addr.String())
+	if err != nil {
+		t.Fatal(err)
+	}
+	server := receiveTransport(t, tc)
+	sc := NewServerChannel(server, 1, Node{Identity{"postmaster", "localhost"}, "srv"}, "sid-1")
+	_ = conn.Close() // the peer vanishes on an envelope boundary
+	ctx, cancel := context.WithTimeout(context.Background(), time.Second)
+	defer cancel()
+	if _, err := server.Receive(ctx); err == nil {
+		t.Fatal("expected EOF")
+	}
+	_ = sc.Close() // what Server.handleChannel does to release a connection that failed to establish
+	raw := server.(*tcpTransport)
+	if raw.conn != nil {
+		if _, err := raw.conn.Write([]byte("x")); err == nil || !strings.Contains(err.Error(), "closed network connection") {
+			t.Errorf("F19: the server-side socket is still open after channel.Close (write error: %v): the descriptor is only released by the garbage collector", err)
+		}
+	}
+}
+
 var _ = tls.Config{}
